@@ -523,12 +523,12 @@ package container
 //@ func container.(*containerServer).socketError
 //@   trusted "records the transport error once and closes done (sync.Once closure)"
 //@   pure
-//@ func container.(*containerServer).recvLoop props C10 C14
+//@ func container.(*containerServer).recvLoop props C04 C10 C14
 //@   arith int
 //@   requires c != nil && c.socket != nil && c.socket.Socket != nil && c.socket.Socket.UnixConn != nil && len(c.socket.Socket.recvBuff) == 4096 && c.socket.decoder != nil
 //@   requires sep(c, c.socket) && sep(c.socket, c.socket.Socket) && sep(c, c.socket.Socket)
 //@   assigns all(c.socket.buff), all(c.socket.Socket.recvBuff), c.socket.recvBuff.Buffer, S._all, FD._all
-//@   callsite (*socket).RecvMsg: assert @C10 @C14 ref_as(e, cmd).DeleteCmd == nil && ref_as(e, cmd).ExecCmd == nil && ref_as(e, cmd).ConfCmd == nil && len(ref_as(e, cmd).OpenCmd) == 0 && len(ref_as(e, cmd).SymlinkCmd) == 0 && int(ref_as(e, cmd).Cmd) == 0
+//@   callsite (*socket).RecvMsg: assert @C04 @C10 @C14 ref_as(e, cmd).DeleteCmd == nil && ref_as(e, cmd).ExecCmd == nil && ref_as(e, cmd).ConfCmd == nil && len(ref_as(e, cmd).OpenCmd) == 0 && len(ref_as(e, cmd).SymlinkCmd) == 0 && int(ref_as(e, cmd).Cmd) == 0
 //@   loop 0: invariant c == old(c) && c.socket == old(c.socket) && c.socket.Socket == old(c.socket.Socket) && c.socket.Socket.UnixConn == old(c.socket.Socket.UnixConn) && len(c.socket.Socket.recvBuff) == 4096 && c.socket.decoder == old(c.socket.decoder)
 
 //@ func chan.send:container.container.recvCh
